@@ -61,6 +61,10 @@ def build_cases(tier, seed):
         c.mode = "loop" if (i // 10) % 2 == 0 else "dispatch"
         c.seed = s
         cases.append(c)
+    for k in range(max(20, n // 20)):
+        c = cc.Case()
+        c.sc, c.profile, c.mode, c.seed = gen.gen_last_ref(seed * 1000 + k), "last_ref", ("loop" if k % 2 else "dispatch"), seed * 1000 + k
+        cases.append(c)
     for prof, g in (("task_hostile", gen.gen_task_hostile), ("restart_in_stop", gen.gen_restart_in_stop)):
         for k in range(3):
             c = cc.Case()
